@@ -193,7 +193,7 @@ def damage_case(seed, idx, tier, rec):
         for name in names:
             os.makedirs(os.path.join(root, name), exist_ok=True)
         write_env(env, filename=FNAME, fmt='pickle')
-        rec.count('evaluations')
+        rec.count('environments')
         expect = expected_of(env, names)
         got = safe_read(root, names, rec, where, 'intact')
         if got is not None:
@@ -208,6 +208,7 @@ def damage_case(seed, idx, tier, rec):
                                   'directory but no file', where)
                 continue
             rec.count('files_written')
+            rec.count('evaluations')      # one evaluation = one damaged file
             with open(path, 'rb') as fil:
                 data = fil.read()
             size = len(data)
